@@ -127,6 +127,149 @@ async fn closed_blobs_indexed(s: &dyn Sut, dir: &Path) -> Result<(), String> {
     Ok(())
 }
 
+/// Shared dump semaphore: another storage on the same disk holds the only permit for a while; the dump requested meanwhile
+/// has to happen once the permit is free.
+#[derive(Clone, Debug, serde::Serialize, serde::Deserialize)]
+pub struct SemCase {
+    pub cfg: Cfg,
+    /// closed blobs that are waiting for their dump when the permit is released
+    pub blobs: u8,
+    /// 0 try_close_active_blob + create, 1 close_active_blob_in_background + create, 2 rotation by overflow of an aged blob
+    pub how: u8,
+    pub hold_ms: u16,
+}
+
+fn sem_cases(thorough: bool) -> Vec<SemCase> {
+    let mut v = vec![];
+    for how in 0..3u8 {
+        for hold_ms in if thorough { vec![0u16, 50, 150, 250, 400, 900] } else { vec![0u16, 300, 600] } {
+            for blobs in if thorough { vec![1u8, 2, 4] } else { vec![1u8, 3] } {
+                for rt_workers in [2usize, 0] {
+                    if !thorough && rt_workers == 0 && hold_ms == 0 {
+                        continue;
+                    }
+                    v.push(SemCase { cfg: Cfg { keylen: 8, rt_workers, allow_dup: true, defer_ms: (2, 5), max_data_in_blob: 4, ..Cfg::default() }, blobs, how, hold_ms });
+                }
+            }
+        }
+    }
+    v
+}
+
+pub fn run_sem(c: &SemCase, dir: &Path, _findings: &Findings) -> Result<CaseOut, Failure> {
+    let rt = c.cfg.runtime();
+    let _ = std::fs::remove_dir_all(dir);
+    let res = rt.block_on(async {
+        let sem = std::sync::Arc::new(tokio::sync::Semaphore::new(1));
+        let mut cfg = c.cfg.clone();
+        if c.how != 2 {
+            cfg.max_data_in_blob = 1 << 30;
+        }
+        let s = match sut::open_sem(&cfg, dir, false, Some(sem.clone())).await {
+            Ok(s) => s,
+            Err(e) => return fail("init/err", format!("{:#}", e), 0, "init"),
+        };
+        let keylen = cfg.keylen;
+        let mut stats = Stats::default();
+        let mut n = 0u64;
+        let mut put = |k: u8| {
+            n += 1;
+            (key_bytes(keylen, k), Bytes::from(vec![b'v'; 20]), n)
+        };
+        let (kb, val, ts) = put(0);
+        if let Err(e) = s.write(&kb, val, ts, None).await {
+            return fail("write/err", format!("{:#}", e), 0, "write");
+        }
+        if c.how == 2 {
+            // rotation needs an active blob older than the 200 ms debounce
+            tokio::time::sleep(Duration::from_millis(230)).await;
+        }
+        // earlier blobs are closed and dumped while the semaphore is free
+        for b in 1..c.blobs {
+            for k in 0..3u8 {
+                let (kb, val, ts) = put(k);
+                if let Err(e) = s.write(&kb, val, ts, None).await {
+                    return fail("write/err", format!("{:#}", e), b as usize, "write");
+                }
+            }
+            if c.how == 2 {
+                for k in 0..3u8 {
+                    let (kb, val, ts) = put(k);
+                    let _ = s.write(&kb, val, ts, None).await;
+                }
+                let _ = wait_quiet(s.as_ref(), true, Duration::from_secs(60)).await;
+                tokio::time::sleep(Duration::from_millis(230)).await;
+            } else {
+                let _ = s.try_close_active().await;
+                let _ = s.try_create_active().await;
+                let _ = wait_quiet(s.as_ref(), true, Duration::from_secs(60)).await;
+            }
+            stats.steps += 1;
+        }
+        // "the other storage" takes the only permit; while it is held this storage's dump task waits for it (holding the
+        // storage's read lock), so the harness issues nothing that needs the write lock until the release
+        let permit = sem.clone().acquire_owned().await.expect("semaphore");
+        match c.how {
+            0 | 1 => {
+                for k in 0..3u8 {
+                    let (kb, val, ts) = put(k);
+                    if let Err(e) = s.write(&kb, val, ts, None).await {
+                        return fail("write/err", format!("{:#}", e), 0, "write");
+                    }
+                }
+                if c.how == 0 {
+                    if let Err(e) = s.try_close_active().await {
+                        return fail("close_active/err", format!("{:#}", e), 0, "close");
+                    }
+                } else {
+                    s.close_active_bg().await;
+                }
+            }
+            _ => {
+                // over-fill the aged active blob: the worker rotates it and wants to dump the old one
+                for k in 0..6u8 {
+                    let (kb, val, ts) = put(k % 4);
+                    if let Err(e) = s.write(&kb, val, ts, None).await {
+                        return fail("write/err", format!("{:#}", e), 0, "write");
+                    }
+                }
+            }
+        }
+        stats.steps += 1;
+        stats.writes = n;
+        tokio::time::sleep(Duration::from_millis(c.hold_ms as u64)).await;
+        drop(permit);
+        // from now on nothing holds the semaphore: at idle every non-empty closed blob has its index file
+        match wait_quiet(s.as_ref(), true, Duration::from_secs(60)).await {
+            Ok(_) => {}
+            Err(st) => {
+                let clause = if st.worker_alive() { "bg/stall" } else { "bg/worker-dead" };
+                return fail(clause, format!("after the dump semaphore was released: {:?}", st), c.blobs as usize, "release");
+            }
+        }
+        if let Err(d) = closed_blobs_indexed(s.as_ref(), dir).await {
+            return fail("bg/dump-not-completed", format!("dump semaphore held by somebody else for {} ms, then released: {}", c.hold_ms, d), c.blobs as usize, "release");
+        }
+        if sem.available_permits() != 1 {
+            return fail("bg/dump-permit-not-returned", format!("{} permits at idle", sem.available_permits()), c.blobs as usize, "release");
+        }
+        match tokio::time::timeout(Duration::from_secs(120), s.close()).await {
+            Ok(Ok(())) => {}
+            Ok(Err(e)) => return fail("close/err", format!("{:#}", e), c.blobs as usize, "close"),
+            Err(_) => return Err(Failure { clause: "harness/timeout".into(), detail: "close() did not return within 120 s".into(), step: 0, op: "close".into() }),
+        }
+        let mut labels = BTreeSet::new();
+        labels.insert(format!("sem_how_{}", c.how));
+        Ok(CaseOut { nontrivial: c.hold_ms >= 250, labels, stats, known_hits: Default::default(), weight: 1 })
+    });
+    drop(rt);
+    res
+}
+
+fn sample_sem(c: &SemCase) -> Value {
+    json!({"rt_workers": c.cfg.rt_workers, "closed_blobs_waiting": c.blobs, "how(0 try_close,1 bg close,2 overflow rotation)": c.how, "permit_held_ms": c.hold_ms})
+}
+
 pub fn run_live(c: &Case, dir: &Path, _findings: &Findings) -> Result<CaseOut, Failure> {
     let rt = c.cfg.runtime();
     let _ = std::fs::remove_dir_all(dir);
@@ -261,10 +404,12 @@ pub fn run(ctx: &RunCtx) -> PropResult {
     run_replays::<Case, _>(ctx, "live", &ctx.verif_dir.join("replays").join("C13"), runf, &mut report);
     let runf = |c: &Case, d: &Path| run_live(c, d, &findings);
     run_generated(ctx, "live", ctx.tier.pick(640, 20_000), live_strategy, runf, &sample, &mut report);
+    let runf = |c: &SemCase, d: &Path| run_sem(c, d, &findings);
+    run_enumerated(ctx, "live-dumpsem", sem_cases(ctx.tier == Tier::Thorough), runf, &sample_sem, &mut report);
     PropResult {
         report,
         level: "exploration",
-        rule: "proptest sequences over all public calls (create_/close_/restore_active_blob_in_background in every active-blob state, try_* variants, force_update with four predicates plus a slow one (8 ms, longer than the deferred-dump times; spliced as delete - slow predicate - delete so that the worker is late for a pending deferred dump while the next deferring request is already queued), data ops, offload, fsync, free, restarts) with a record limit of 3-11 or a byte limit of a few hundred bytes and 2-5 ms deferred dumps; then the probe: make sure an active blob exists, wait 230 ms (the rotation debounce is 200 ms of blob age), write limit+1 records, wait until the background machinery is idle (H3 probe). Oracle at idle: the worker task is alive, next_blob_id and blobs_count advanced (a switch happened), every non-empty closed blob has an index file with the written flag and its current blob size (requested dumps completed), close() returns Ok. Idle means nothing is pending, so a missing switch is definite, not a timing guess. Non-trivial = the sequence contains a background request that could not apply in its state. distinct = FNV hash of the serialized case.".into(),
+        rule: "proptest sequences over all public calls (create_/close_/restore_active_blob_in_background in every active-blob state, try_* variants, force_update with four predicates plus a slow one (8 ms, longer than the deferred-dump times; spliced as delete - slow predicate - delete so that the worker is late for a pending deferred dump while the next deferring request is already queued), data ops, offload, fsync, free, restarts) with a record limit of 3-11 or a byte limit of a few hundred bytes and 2-5 ms deferred dumps; then the probe: make sure an active blob exists, wait 230 ms (the rotation debounce is 200 ms of blob age), write limit+1 records, wait until the background machinery is idle (H3 probe). Oracle at idle: the worker task is alive, next_blob_id and blobs_count advanced (a switch happened), every non-empty closed blob has an index file with the written flag and its current blob size (requested dumps completed), close() returns Ok. Idle means nothing is pending, so a missing switch is definite, not a timing guess. An enumerated phase (live-dumpsem) gives the storage a caller-owned one-permit dump semaphore (Builder::set_dump_sem), lets 'another storage' hold the permit for 0-900 ms while 1-4 blobs are closed (try_close, background close, or rotation by overflow) and requires every requested dump to have happened at idle after the release, and the permit to be back. Non-trivial = the sequence contains a background request that could not apply in its state (live); the permit was held for >= 250 ms (live-dumpsem). distinct = FNV hash of the serialized case.".into(),
         assumptions: {
             let mut a = common_assumptions();
             a.push("a close() that does not return within 120 s ends the run as inconclusive (exit 2), never as a violation".into());
@@ -277,6 +422,9 @@ pub fn replay_other(phase: &str, case: &Value, dir: &Path, findings: &Findings) 
     if phase == "live" {
         let runf = |c: &Case, d: &Path| run_live(c, d, findings);
         serde_json::from_value::<Case>(case.clone()).ok().map(|c| guarded(&c, dir, &runf))
+    } else if phase == "live-dumpsem" {
+        let runf = |c: &SemCase, d: &Path| run_sem(c, d, findings);
+        serde_json::from_value::<SemCase>(case.clone()).ok().map(|c| guarded(&c, dir, &runf))
     } else {
         None
     }
